@@ -336,6 +336,8 @@ def install_dates(I, cls):
         ns["day"] = _prop(lambda ctx, self: self.fields["d"])
         ns["isoformat"] = _meth("isoformat", m_isoformat)
         ns["isocalendar"] = _meth("isocalendar", m_isocalendar)
+        ns["isoweekday"] = _meth("isoweekday", lambda ctx, self: B.wrap(cal.weekday0(ordinal_of(self)) + 1))
+        ns["weekday"] = _meth("weekday", lambda ctx, self: B.wrap(cal.weekday0(ordinal_of(self))))
         ns["__sub__"] = _meth("__sub__", m_sub)
         for nm, op in (("__lt__", _ast.Lt()), ("__le__", _ast.LtE()), ("__gt__", _ast.Gt()), ("__ge__", _ast.GtE()),
                        ("__eq__", _ast.Eq()), ("__ne__", _ast.NotEq())):
@@ -361,7 +363,8 @@ def install_dates(I, cls):
     def p_parse(ctx, text, exact=False, **kw):
         """pendulum.parse(text, exact=True) on the ISO shapes the period grammar uses (assumed contract, validated natively):
         YYYY -> 1 January; YYYY-MM -> first of the month; YYYY-MM-DD -> that date; YYYY-Www -> Monday of that ISO week;
-        YYYY-Www-D -> that day of the week; ParserError (a ValueError) when no such date exists or for any other text"""
+        YYYY-Www-D -> that day of the week (weeks 00..53 and days 0..7 are accepted: week 00 is the week before week 01, day 0 the
+        day before Monday); ParserError (a ValueError) when no such date exists or for any other text"""
         from . import fmtterms
         from .strings import Dec
         ctx.assumed_ext.add("pendulum.parse(text, exact=True) on YYYY / YYYY-MM / YYYY-MM-DD / YYYY-Www / YYYY-Www-D: the date named, "
@@ -402,16 +405,13 @@ def install_dates(I, cls):
         elif shape in ("F4-WF2", "F4-WF2-F1"):
             cy, w = vals[0], vals[1]
             wd = vals[2] if len(vals) == 3 else z3.IntVal(1)
-            if not ctx.branch(z3.And(w >= 1, w <= 53, wd >= 1, wd <= 7)):
-                # pendulum is lenient here (week 00 is the week before week 01, day 0 the day before Monday): outside the
-                # assumed contract; the period grammar's own pattern refuses such texts before pendulum sees them
-                raise Unsupported("pendulum.parse of an ISO week text with week outside 01..53 or day outside 1..7")
             jan1 = cal.OM(12 * cy)
             jan4 = jan1 + 3
             monday1 = jan4 - cal.weekday0(jan4)
             o = monday1 + 7 * (w - 1) + (wd - 1)
             thursday = monday1 + 7 * (w - 1) + 3
-            ok = z3.And(cy >= 1, cy <= 9999, w >= 1, wd >= 1, wd <= 7, thursday < cal.OM(12 * cy + 12), o >= cal.OM(12), o < cal.OM(12 * 10000))
+            # pendulum is lenient below: week 00 is the week before week 01 and day 0 the day before Monday (validated natively)
+            ok = z3.And(cy >= 1, cy <= 9999, w >= 0, wd >= 0, wd <= 7, thursday < cal.OM(12 * cy + 12), o >= cal.OM(12), o < cal.OM(12 * 10000))
             if not ctx.branch(ok):
                 fail()
             return fresh_date(ctx, p_date, o, "parsed")
